@@ -75,18 +75,35 @@ type ghost struct {
 	Sig map[string]map[string]string
 	// Prev[item]: signing bytes (hex) the item had before its last change.
 	Prev map[string]string
+	// Dep: number of compass replacements so far (0 or 1).
+	Dep int
+	// Old[item][validator]: batch confirmation accepted before the compass
+	// replacement and still stored (the unchanged tree keeps them; see the
+	// assumption in run). It is judged over Prev[item], the checkpoint it was made for.
+	Old map[string]map[string]bool
+	// OldBytes[item]: the batch's stored BytesToSign was issued before the replacement.
+	OldBytes map[string]bool
 
 	obs   observation // observation of the state this ghost belongs to (cache, not hashed)
 	depth int         // number of transitions from the initial state (not hashed)
 }
 
 func (g *ghost) Clone() explore.Ghost {
-	n := &ghost{Reg: append([]string{}, g.Reg...), Lit: append([]string{}, g.Lit...), Reg2: append([]string(nil), g.Reg2...), Sig: map[string]map[string]string{}, Prev: map[string]string{}, obs: g.obs, depth: g.depth + 1}
+	n := &ghost{Reg: append([]string{}, g.Reg...), Lit: append([]string{}, g.Lit...), Reg2: append([]string(nil), g.Reg2...), Sig: map[string]map[string]string{}, Prev: map[string]string{}, Dep: g.Dep, Old: map[string]map[string]bool{}, OldBytes: map[string]bool{}, obs: g.obs, depth: g.depth + 1}
 	for it, m := range g.Sig {
 		n.Sig[it] = map[string]string{}
 		for k, v := range m {
 			n.Sig[it][k] = v
 		}
+	}
+	for it, m := range g.Old {
+		n.Old[it] = map[string]bool{}
+		for k, v := range m {
+			n.Old[it][k] = v
+		}
+	}
+	for k, v := range g.OldBytes {
+		n.OldBytes[k] = v
 	}
 	for k, v := range g.Prev {
 		n.Prev[k] = v
@@ -101,7 +118,10 @@ func (g *ghost) Key() string {
 		R2 []string
 		S  map[string]map[string]string
 		P  map[string]string
-	}{g.Reg, g.Lit, g.Reg2, g.Sig, g.Prev})
+		D  int
+		O  map[string]map[string]bool
+		OB map[string]bool
+	}{g.Reg, g.Lit, g.Reg2, g.Sig, g.Prev, g.Dep, g.Old, g.OldBytes})
 	return string(b)
 }
 
@@ -246,7 +266,7 @@ func run(r *report.Run, shard, nshards int, replayFile string) {
 		}
 	}
 
-	g0 := &ghost{Reg: append([]string{}, e.orig...), Lit: append([]string{}, e.orig...), Sig: map[string]map[string]string{}, Prev: map[string]string{}}
+	g0 := &ghost{Reg: append([]string{}, e.orig...), Lit: append([]string{}, e.orig...), Sig: map[string]map[string]string{}, Prev: map[string]string{}, Old: map[string]map[string]bool{}, OldBytes: map[string]bool{}}
 	g0.obs = e.observe(ctx)
 	var kinds []string
 	for _, k := range sortedKeys(g0.obs) {
@@ -268,11 +288,12 @@ func run(r *report.Run, shard, nshards int, replayFile string) {
 		panic(fmt.Sprintf("scenario set-up incomplete: %v", kinds))
 	}
 
-	r.Rule = "scenario two-chains: a second active chain with its own published UpdateValset (v0 registered there with another key, v1 with the same key, v2 not at all); Sign with one entry or with two entries in one MsgAddMessagesSignatures (first chain's SubmitLogicCall + second chain's UpdateValset, both orders, every assignment of the validator's two keys) and the end-block; the ghost records the key registered for the item's own chain and a rejected transaction must leave no signature. Then four BFS scenarios (operations on the SubmitLogicCall only / the UpdateValset only / the batch only / all three), each from the set-up state and from seeded states where two of three validators have already estimated the scenario's items (21000; 300000); alphabet Sign(v,m,kind) / Estimate(v,m,g) / EndCons (module-manager end-block: estimate election, fee attachment by in-place replacement) / Confirm(v,b,kind) / EstBatch(v,b,g) / EndSky (skyway end-blocker: election, checkpoint recomputed) / ReRegister(v,key: own first, own second, first key of the previous validator, the previous validator's current or former key spelled differently (lower-case address, zero-padded 32-byte Pubkey)) with kind in {valid, garbage, other validator's key under own address, other validator's key and address, duplicate, signature over the item's previous bytes, own previous key}; every transition is a really signed tx through ante + router or a real end-blocker; in every state each stored signature / batch confirm is recovered with go-ethereum SigToPub over the item's current signing bytes; a state is distinct by (consensus, skyway, valset stores, ghost)"
+	r.Rule = "scenario two-chains: a second active chain with its own published UpdateValset (v0 registered there with another key, v1 with the same key, v2 not at all); Sign with one entry or with two entries in one MsgAddMessagesSignatures (first chain's SubmitLogicCall + second chain's UpdateValset, both orders, every assignment of the validator's two keys) and the end-block; the ghost records the key registered for the item's own chain and a rejected transaction must leave no signature. Then four BFS scenarios (operations on the SubmitLogicCall only / the UpdateValset only / the batch only / all three), each from the set-up state and from seeded states where two of three validators have already estimated the scenario's items (21000; 300000); alphabet Sign(v,m,kind) / Estimate(v,m,g) / EndCons (module-manager end-block: estimate election, fee attachment by in-place replacement) / Confirm(v,b,kind) / EstBatch(v,b,g) / EndSky (skyway end-blocker: election, checkpoint recomputed) / ReplaceCompass (once; new deployment id while the batch is open; the previous-bytes kind is then a confirmation over the checkpoint bound to the previous deployment) / ReRegister(v,key: own first, own second, first key of the previous validator, the previous validator's current or former key spelled differently (lower-case address, zero-padded 32-byte Pubkey)) with kind in {valid, garbage, other validator's key under own address, other validator's key and address, duplicate, signature over the item's previous bytes, own previous key}; every transition is a really signed tx through ante + router or a real end-blocker; in every state each stored signature / batch confirm is recovered with go-ethereum SigToPub over the item's current signing bytes; a state is distinct by (consensus, skyway, valset stores, ghost)"
 	r.Assumptions = []string{
 		"tx atomicity re-implemented as in baseapp.runTx (ante cache, msg cache)",
 		"height and time are fixed at 101 (only h mod 10/50/300 and batch time-outs are read by the explored code; none of them fires)",
-		"a compass-id change while a batch is open, snapshot rebuilds and message re-assignment (ReassignOrphanedMessages has no caller in the application) are outside the alphabet",
+		"snapshot rebuilds and message re-assignment (ReassignOrphanedMessages has no caller in the application) are outside the alphabet",
+		"compass replacement (one ReplaceCompass = EvmKeeper.ActivateChainReferenceID with a new deployment id, in the batch and all-items scenarios): the tree neither re-issues the stored BytesToSign nor discards stored confirmations at that moment (it does at the next estimate election; never if the estimate was already elected). The oracle therefore requires only confirmations ACCEPTED AFTER the replacement to verify over the checkpoint recomputed from the stored batch and the chain's CURRENT deployment id; confirmations accepted before it are judged over the checkpoint they were made for, and the stale stored BytesToSign is counted (outcome ReplaceCompass: +stale-bytes-to-sign / +kept-confirm), not judged",
 		"registered Pubkey is the 20-byte address of the registered key (what StdChain and pigeon register) or, in the alias registration, the same address zero-padded to 32 bytes; the stored PublicKey of a signature is read the way the queue reads it (last 20 bytes)",
 		"signature byte V is accepted as 0/1 or 27/28 for batch confirms (representation, as skyway's EthAddressFromSignature)",
 		"quick tier: invalid signature kinds and alias registrations are enumerated for validator v0 only and estimates {21000, 300000}; thorough: all validators, estimates {21000, 90000} and the constants {300000, 100000, 0, 1, 2^64-1}",
@@ -716,17 +737,22 @@ func (e *env) invariant(n *explore.Node) *explore.Fail {
 	for _, key := range sortedKeys(g.obs) {
 		it := g.obs[key]
 		where := it.Kind
-		if it.Kind == "batch" && !bytes.Equal(it.Stored, it.Bytes) {
+		if it.Kind == "batch" && !g.OldBytes[key] && !bytes.Equal(it.Stored, it.Bytes) {
 			return explore.Failf("batch-bytes-stale", "batch %d stores BytesToSign %x but its checkpoint recomputed from the stored batch is %x", it.ID, it.Stored, it.Bytes)
 		}
 		seenVal, seenKey := map[string]bool{}, map[string]bool{}
 		for _, s := range it.Sigs {
-			rec := e.recoverAddr(it.Bytes, s.Sig, it.Kind == "batch")
+			over := it.Bytes
+			if g.Old[key][s.Val] {
+				// accepted before the compass replacement: judged over the checkpoint of that time
+				over, _ = hex.DecodeString(g.Prev[key])
+			}
+			rec := e.recoverAddr(over, s.Sig, it.Kind == "batch")
 			if rec == "" {
-				return explore.Failf("sig-invalid:"+where, "%s (%s, estimate %d): stored signature of %s (%x…) does not recover to any key over the current signing bytes %x", key, it.What, it.Est, s.Val, head(s.Sig), it.Bytes)
+				return explore.Failf("sig-invalid:"+where, "%s (%s, estimate %d): stored signature of %s (%x…) does not recover to any key over the current signing bytes %x", key, it.What, it.Est, s.Val, head(s.Sig), over)
 			}
 			if !strings.EqualFold(rec, s.Claimed) || (it.Kind == "msg" && ethcommon.BytesToAddress(s.Pub).Hex() != rec) {
-				return explore.Failf("sig-invalid:"+where, "%s (%s, estimate %d): stored signature of %s recovers to %s over the current signing bytes %x, stored address %s, stored public key %x", key, it.What, it.Est, s.Val, rec, it.Bytes, s.Claimed, s.Pub)
+				return explore.Failf("sig-invalid:"+where, "%s (%s, estimate %d): stored signature of %s recovers to %s over the current signing bytes %x, stored address %s, stored public key %x", key, it.What, it.Est, s.Val, rec, over, s.Claimed, s.Pub)
 			}
 			want, ok := g.Sig[key][s.Val]
 			if !ok {
@@ -795,6 +821,24 @@ func (e *env) step(label string, oc opCtx, f func(ctx sdk.Context, g *ghost) (st
 				continue
 			}
 			changed += "," + a.What
+			if oc.class == "ReplaceCompass" && a.Kind == "batch" && os.Getenv("C06_STRICT_COMPASS") == "" {
+				// The unchanged tree neither re-issues BytesToSign nor discards the
+				// confirmations when the compass is replaced: recorded, not judged.
+				g.Prev[key] = hex.EncodeToString(b.Bytes)
+				if !bytes.Equal(a.Stored, a.Bytes) {
+					g.OldBytes[key] = true
+					outcome += "+stale-bytes-to-sign"
+				}
+				for _, sg := range a.Sigs {
+					if g.Old[key] == nil {
+						g.Old[key] = map[string]bool{}
+					}
+					g.Old[key][sg.Val] = true
+					outcome += "+kept-confirm"
+				}
+				continue
+			}
+			delete(g.Old, key)
 			if len(a.Sigs) > 0 {
 				return explore.Failf("carried-over:"+a.Kind+":"+oc.class, "%s (%s): signing bytes changed %x -> %x (estimate %d -> %d) in %s and %d signature(s) collected for the old bytes are still stored (first: %s)", key, a.What, b.Bytes, a.Bytes, b.Est, a.Est, label, len(a.Sigs), a.Sigs[0].Val)
 			}
@@ -838,7 +882,14 @@ func (e *env) step(label string, oc opCtx, f func(ctx sdk.Context, g *ghost) (st
 			for v := range g.Sig[key] {
 				if !stored[v] {
 					delete(g.Sig[key], v)
+					delete(g.Old[key], v)
 				}
+			}
+			if len(g.Old[key]) == 0 {
+				delete(g.Old, key)
+			}
+			if a.Kind == "batch" && bytes.Equal(a.Stored, a.Bytes) {
+				delete(g.OldBytes, key)
 			}
 			if len(g.Sig[key]) == 0 {
 				delete(g.Sig, key)
@@ -1059,6 +1110,19 @@ func (e *env) ops(n *explore.Node, filter map[string]bool) []explore.Op {
 		}
 		return "ok", nil
 	}))
+	if hasBatch && g.Dep == 0 {
+		// compass replacement through the activation function the evm keeper calls
+		// when a deployment / handover is attested (same call world.AddChain makes)
+		ops = append(ops, e.step("ReplaceCompass", opCtx{-1, "", "ReplaceCompass"}, func(ctx sdk.Context, g *ghost) (string, *explore.Fail) {
+			err := w.App.EvmKeeper.ActivateChainReferenceID(ctx, ref, &evmtypes.SmartContract{Id: 2, AbiJSON: world.CompassABI(), Bytecode: []byte{0x60, 0x80}},
+				"0x6B4E98aA540B2C3545120Ff8CA5C3B6a5D7Cf2f6", []byte("verif-compass-2"))
+			if err != nil {
+				return "", explore.Failf("harness", "ActivateChainReferenceID: %v", err)
+			}
+			g.Dep++
+			return "ok", nil
+		}))
+	}
 	if hasBatch {
 		ops = append(ops, e.step("EndSky", opCtx{-1, "", "EndSky"}, func(ctx sdk.Context, g *ghost) (string, *explore.Fail) {
 			w.SkywayEnd(ctx, nil)
